@@ -140,6 +140,11 @@ func genVal(r *hutil.Rng, c Col) Val {
 // a value next to v that coarse comparisons confuse with it
 func nearVal(r *hutil.Rng, c Col, v Val) (Val, bool) {
 	switch {
+	case v.K == "float" && c.Typ == "FLOAT":
+		if r.Chance(1, 2) {
+			return vFloat(float64(math.Nextafter32(float32(v.float()), float32(math.Inf(1))))), true
+		}
+		return vFloat(float64(math.Nextafter32(float32(v.float()), float32(math.Inf(-1))))), true
 	case v.K == "float":
 		f := v.float()
 		if r.Chance(1, 2) {
@@ -570,8 +575,13 @@ func (g *genCtx) fixedUpdate(t *Table, c *Cond) Stmt {
 	v := genVal(g.r, t.Cols[ci])
 	s.Set = []SetItem{{Col: ci, Op: "val", V: v}}
 	w, wa := whereSQL(t, c, false)
-	s.SQL = "UPDATE " + t.Name + " SET " + t.Cols[ci].Name + " = ? WHERE " + w
-	s.Args = append([]atrun.Arg{v.arg()}, wa...)
+	if v.bindable() {
+		s.SQL = "UPDATE " + t.Name + " SET " + t.Cols[ci].Name + " = ? WHERE " + w
+		s.Args = append([]atrun.Arg{v.arg()}, wa...)
+	} else {
+		s.SQL = "UPDATE " + t.Name + " SET " + t.Cols[ci].Name + " = " + v.lit() + " WHERE " + w
+		s.Args = wa
+	}
 	return s
 }
 
